@@ -1149,6 +1149,27 @@ def Decoder_DecodePackedBool.body (fuel : Nat) : Decoder_DecodePackedBool.St →
 def Decoder_DecodePackedBool (fuel : Nat) (d_p : Bytes) (d_offset : BitVec 64) (d_mode : BitVec 64) (d_keyStart : BitVec 64) (d_keyEnd : BitVec 64) : Go.Out Decoder_DecodePackedBool.St Decoder_DecodePackedBool.R :=
   Decoder_DecodePackedBool.body fuel { d_p := d_p, d_offset := d_offset, d_mode := d_mode, d_keyStart := d_keyStart, d_keyEnd := d_keyEnd }
 
+/-! ### `Encoder.EncodeBytes` (/repo/encoder.go:42:1) -/
+
+structure Encoder_EncodeBytes.St where
+  e_p : Bytes
+  e_offset : BitVec 64
+  tag : BitVec 64
+  v : Bytes
+
+abbrev Encoder_EncodeBytes.R := Unit
+
+/-- the body of `Encoder_EncodeBytes`, statement by statement -/
+def Encoder_EncodeBytes.body (fuel : Nat) : Encoder_EncodeBytes.St → Go.Out Encoder_EncodeBytes.St Encoder_EncodeBytes.R :=
+  (Go.seq (Go.seq (fun s => if ((s.e_offset).toNat ≤ s.e_p.length) then match (EncodeTag fuel (s.e_p.drop (s.e_offset).toNat) s.tag 2#64) with | .ret r c => .next { s with e_p := s.e_p.take (s.e_offset).toNat ++ c.dest, e_offset := (s.e_offset + r) } | .next _ => .panic | .panic => .panic | .diverge => .diverge else .panic)
+    (Go.seq (fun s => if ((s.e_offset).toNat ≤ s.e_p.length) then match (EncodeVarint fuel (s.e_p.drop (s.e_offset).toNat) (BitVec.ofNat 64 s.v.length)) with | .ret r c => .next { s with e_p := s.e_p.take (s.e_offset).toNat ++ c.dest, e_offset := (s.e_offset + r) } | .next _ => .panic | .panic => .panic | .diverge => .diverge else .panic)
+    (Go.seq (fun s => if ((s.e_offset).toNat ≤ s.e_p.length) then .next { s with e_p := Go.copyAt s.e_p (s.e_offset).toNat s.v } else .panic)
+    (fun s => .next { s with e_offset := (s.e_offset + (BitVec.ofNat 64 s.v.length)) }))))
+    (fun s => .ret () s))
+
+def Encoder_EncodeBytes (fuel : Nat) (e_p : Bytes) (e_offset : BitVec 64) (tag : BitVec 64) (v : Bytes) : Go.Out Encoder_EncodeBytes.St Encoder_EncodeBytes.R :=
+  Encoder_EncodeBytes.body fuel { e_p := e_p, e_offset := e_offset, tag := tag, v := v }
+
 /-! ### `Encoder.EncodePackedUInt64` (/repo/encoder.go:198:1) -/
 
 structure Encoder_EncodePackedUInt64.St where
